@@ -80,3 +80,17 @@ pub fn probe_parse_trim_holds(b: &[u8]) {
         assert!(tb.len() == 0 || !(tb[0] == b' ' || tb[0] == b'\n' || tb[0] == b'\t'));
     }
 }
+/// to_ascii_uppercase / to_ascii_lowercase on bounded strings against a byte loop
+pub fn probe_ascii_case_holds(s: &str) {
+    let u = s.to_ascii_uppercase();
+    let l = s.to_ascii_lowercase();
+    assert!(u.len() == s.len() && l.len() == s.len());
+    let (sb, ub, lb) = (s.as_bytes(), u.as_bytes(), l.as_bytes());
+    let mut i = 0usize;
+    while i < sb.len() {
+        let c = sb[i];
+        assert!(ub[i] == if c >= b'a' && c <= b'z' { c - 32 } else { c });
+        assert!(lb[i] == if c >= b'A' && c <= b'Z' { c + 32 } else { c });
+        i += 1;
+    }
+}
